@@ -225,7 +225,7 @@ class NetworkClient:
         try:
             return self.client.get(name)       # wait_for_file leaves an inotify instance behind
         finally:
-            core.close_fds_since(fds)
+            core.close_fds_since(fds, collect=False)   # an Inotify object: no finaliser
 
     def delete(self, name):
         self.clock.skew += 1
